@@ -5,7 +5,9 @@
 //!   blob  @<path>                    the start package as a file: read for `file`; WRITTEN by the harness for built0/built2
 //!                                    (the driver parses it with the Lean parser)
 //!   ops   `-` or comma separated     sR sP sE sC (sign_with_timestamp(.., 1_600_000_000) with the RSA-4096, passphrase
-//!                                    protected RSA-3072, Ed25519, ECDSA-P256 key), c (clear_signatures), w (write + parse)
+//!                                    protected RSA-3072, Ed25519, ECDSA-P256 key), c (clear_signatures), w (write + parse),
+//!                                    W (Package::write_file to a fresh path + Package::open of that file: the other sink /
+//!                                    source kind of the same step; not in the exhaustive alphabet, generated as a family of its own)
 //!   ids   R=<hex>,P=..,E=..,C=..     key ids of the four keys, computed by the harness from the public key files per RFC 4880
 //!                                    (SHA-1 fingerprint of the primary key packet), independently of rpm-rs and the pgp crate
 //!   gpg                              additionally cross-check every fresh signature with gpgv (thorough tier)
@@ -153,7 +155,7 @@ fn write_if_changed(path: &str, bytes: &[u8]) {
 }
 
 /// the main header of serialised package `bytes`, taken apart (index entries as written, store), and where it sits
-fn split_main_header(bytes: &[u8]) -> Option<(usize, usize, crate::pkggen::GHeader)> {
+pub fn split_main_header(bytes: &[u8]) -> Option<(usize, usize, crate::pkggen::GHeader)> {
     let p = rpm::Package::parse(&mut &bytes[..]).ok()?;
     let o = p.metadata.get_package_segment_offsets();
     let (a, b) = (o.header as usize, o.payload as usize);
@@ -178,7 +180,7 @@ fn split_main_header(bytes: &[u8]) -> Option<(usize, usize, crate::pkggen::GHead
 
 /// start packages whose main header is valid but not laid out the way the library itself would lay it out: derived from
 /// the built2 package by editing the serialised main header and recording the digest of the edited header
-fn variant_start(kind: &str) -> Option<Vec<u8>> {
+pub fn variant_start(kind: &str) -> Option<Vec<u8>> {
     let base = build_start("built2").ok()?;
     let mut bytes = Vec::new();
     base.write(&mut bytes).ok()?;
@@ -233,7 +235,7 @@ fn variant_start(kind: &str) -> Option<Vec<u8>> {
     Some(out)
 }
 
-const VARIANT_KINDS: [&str; 4] = ["latin1", "noncanon", "swapped", "extratag"];
+pub const VARIANT_KINDS: [&str; 4] = ["latin1", "noncanon", "swapped", "extratag"];
 
 fn start_package(kind: &str, blob: &str) -> Option<rpm::Package> {
     let path = blob.strip_prefix('@')?;
@@ -553,6 +555,24 @@ fn apply(p: &mut rpm::Package, op: &str) -> Step {
                 p.write(&mut bytes)?;
                 rpm::Package::parse(&mut &bytes[..])
             }));
+            match r {
+                Ok(Ok(q)) => {
+                    *p = q;
+                    Step::Done { fresh: None, res: "-".into() }
+                }
+                Ok(Err(_)) => Step::Failed,
+                Err(_) => Step::Panicked,
+            }
+        }
+        "W" => {
+            // the same step through the file system: `write_file` (BufWriter<File>) then `Package::open` (BufReader<File>)
+            static N: std::sync::atomic::AtomicU64 = std::sync::atomic::AtomicU64::new(0);
+            let path = std::env::temp_dir().join(format!("rpmverif-c10W-{}-{}.rpm", std::process::id(), N.fetch_add(1, std::sync::atomic::Ordering::Relaxed)));
+            let r = guarded(AssertUnwindSafe(|| -> Result<rpm::Package, rpm::Error> {
+                p.write_file(&path)?;
+                rpm::Package::open(&path)
+            }));
+            let _ = std::fs::remove_file(&path);
             match r {
                 Ok(Ok(q)) => {
                     *p = q;
@@ -1125,6 +1145,8 @@ fn special_histories() -> Vec<String> {
         "sE@sys:-1:0", "sE,sR@sys:-1:999999999,c", "sE@utc:4294967296:0", "c,sC@fix:-1:0", "sE,xF@sys:4294967296:0", "xP@utc:-5:0",
         "sR,r010203@fix:4294967296:5", "sE,w,sE@sys:8000000000:0",
     ].iter().map(|s| s.to_string()));
+    // write_file + open as the write / re-parse step
+    v.extend(["W", "W,W", "sE,W", "sR,W,c", "sE,W,sC,W", "c,W", "sP,W,w", "sC,w,W", "nE,W", "sE,xP,W", "W,sR@sys:1600000000:5,W"].iter().map(|s| s.to_string()));
     v.push(format!("sC,r{}", unsupported));
     v.push(format!("r{},sE,w", unsupported));
     v.push(format!("xF,r{}@utc:1600000000:0,c", unsupported));
@@ -1209,6 +1231,27 @@ pub fn gen(ctx: &mut Ctx) {
         // the usual two- and three-step histories from the starts whose tree is only one level deep
         if VARIANT_KINDS.contains(&kind.as_str()) && !ctx.thorough {
             for (hi, h) in ["sE,w,c", "sR,sC,w", "c,w,sP", "sC,c,sE"].iter().enumerate() {
+                if (n + hi) as u64 % ctx.shard.1 == ctx.shard.0 {
+                    ctx.req(&format!("hist {} {} {} {}", kind, blob, h, ids));
+                }
+            }
+        }
+        // the family of `W` histories: every op followed by W, W followed by every op, and a,W,b (a rotating fifth in quick)
+        {
+            const A: [&str; 5] = ["sR", "sP", "sE", "sC", "c"];
+            let mut fam: Vec<String> = Vec::new();
+            for a in A {
+                fam.push(format!("{},W", a));
+                fam.push(format!("W,{}", a));
+            }
+            for (ai, a) in A.iter().enumerate() {
+                for (bi, b) in A.iter().enumerate() {
+                    if ctx.thorough || (ai + bi + n) % 5 == 0 {
+                        fam.push(format!("{},W,{}", a, b));
+                    }
+                }
+            }
+            for (hi, h) in fam.iter().enumerate() {
                 if (n + hi) as u64 % ctx.shard.1 == ctx.shard.0 {
                     ctx.req(&format!("hist {} {} {} {}", kind, blob, h, ids));
                 }
